@@ -462,6 +462,8 @@ def gen_c11(tier, rng):
         ms_inst = sorted(set(inst))
         if tier == "quick" and len(ms_inst) > 24:
             ms_inst = ms_inst[:8] + rng.sample(ms_inst, 8) + ms_inst[-8:]
+        elif tier != "quick" and len(ms_inst) > 400:
+            ms_inst = ms_inst[:100] + rng.sample(ms_inst, 200) + ms_inst[-100:]
         for t in ms_inst:
             if abs(t) < (1 << 52):
                 for d in (-1, 0, 1, 500, -500, 999, -999):
